@@ -208,11 +208,9 @@ def check(rep):
                 rep.add_violation('sanitizer', 'ASan/UBSan report: ' + err[-400:],
                                   dict(kind='input', driver='wire.san', case=cases[::4][idx] if idx is not None else None, observed=err[-2000:]))
     if ctx.model and impl is not None:
-        # the provisional model matcher knows plain domains only: wildcard server domains are impl-only
-        idx = [i for i, m in enumerate(meta) if not (m and m['wild'])]
-        sub = [cases[i] for i in idx]
-        rc, impl2, err = vlib.parallel_run_cases(ctx.exe['wire'], sub, ctx.work, 'impl2')
+        sub = cases
         rc, mod, err = vlib.parallel_run_cases(ctx.model, sub, ctx.work, 'model')
+        impl2 = impl
         d = vlib.first_diff(sub, impl2, mod)
         rep.cov['traces_validated_against_impl'] = len(sub) if d is None else d
         if d is not None:
